@@ -35,7 +35,10 @@ func adaptTransactionMetaToExpectedOutput(m map[string]any) map[string]any {
 	}
 	{
 		if _, ok := meta["err"]; ok {
-			meta["err"], _ = solanaerrors.ParseTransactionError(meta["err"])
+			// a recorded error that cannot be rendered stays as it is (it must not turn into "no error")
+			if parsed, err := solanaerrors.ParseTransactionError(meta["err"]); err == nil {
+				meta["err"] = parsed
+			}
 		} else {
 			meta["err"] = nil
 		}
